@@ -228,7 +228,7 @@ def main(tier, seed):
         c["mdiv"] = kv(ans[2 * i + 1])
     violations = []
     configs = [("g++", "c++14"), ("clang++-14", ["c++14", "c++17", "c++20"][seed % 3])]
-    nchunks = 16
+    nchunks = max(16, -(-len(cases) // 9))      # bounded translation units: ~9 cases per TU in every tier
     npts = 40 if tier == "quick" else 120
     inc = "\n".join(f'#include "{h}"' for h in A.headers())
     stats = {"cases": len(cases), "equivalent_partner_pool": len(equiv_partners), "configs": [], "values": 0, "raw_products": 0, "raw_quotients": 0, "div_forbidden": 0, "pow_cases": 0,
